@@ -2,7 +2,7 @@
    Model: coq/C14/Model.v (routines of src/particle.c in their order of checks); specification: a plain
    particle list with N_active / N_var / tree-present ([astate], [res_ok], [aspec]). *)
 From Coq Require Import List ZArith NArith Bool Arith Lia.
-From RV Require Import C14.Murmur C14.Model C14.ProofsA C14.ProofsB C14.ProofsC C14.PyLayer C14.Hybrid C14.HybridProofs.
+From RV Require Import C14.Murmur C14.Model C14.ProofsA C14.ProofsB C14.ProofsC C14.PyLayer C14.Hybrid C14.HybridProofs C14.StepGuard.
 Import ListNotations.
 Close Scope N_scope.
 
@@ -144,6 +144,26 @@ Theorem C14_trace_Ks_remove_exact : forall n index k ob k' ob', S n * S n <= len
     nth (a * n + b) k' 0%Z = nth ((if a <? index then a else S a) * S n + (if b <? index then b else S b)) k 0%Z.
 Proof. exact ks_remove_exact. Qed.
 Print Assumptions C14_trace_Ks_remove_exact.
+
+(* ---- a step whose part1 failed must not touch integrator arrays sized for an earlier N: coq/C14/StepGuard.v
+   (abstract model: p_jh has N_allocated records, init fails before resizing or resizes to N, every
+   routine of the step indexes p_jh[i] for i < N) *)
+(* WHFast (guard p_jh==NULL || N_allocated != N in part2): nothing outside p_jh is touched for any earlier
+   allocation, any N, either outcome of init; after a failed init with N_allocated != N the arrays are
+   untouched and t is not advanced *)
+Theorem C14_whfast_step_safe : forall err n w,
+  woob (fst (whfast_step err n w)) = woob w /\
+  (err = true -> fst (whfast_step err n w) = w /\ snd (whfast_step err n w) = false \/ palloc w = n).
+Proof. exact whfast_step_safe. Qed.
+Print Assumptions C14_whfast_step_safe.
+(* SABA (part2 re-checks p_jh==NULL || N_allocated != N || its own part1 errors): the same, for every
+   combination of SABA's own errors and the errors of init *)
+Theorem C14_saba_step_safe : forall own err n w,
+  woob (fst (saba_step own err n w)) = woob w /\
+  (own = true -> saba_step own err n w = (w, false)) /\
+  (err = true -> fst (saba_step own err n w) = w /\ snd (saba_step own err n w) = false \/ palloc w = n).
+Proof. exact saba_step_safe. Qed.
+Print Assumptions C14_saba_step_safe.
 
 (* Non-vacuity: a reachable state with a STALE lookup table (4 entries for 3 particles: (9 -> slot 3) points
    past N, (5 -> slot 0) points at a particle that now carries hash 9), reached through an unsorted removal of
